@@ -226,6 +226,8 @@ PLANS = {
         "budget_s": {"quick": 50, "thorough": 900},
         "scenarios": [
             S("c14_events", 3000, 90000),
+            S("c14_subset", 600, 18000),   # sockets that register only some pipe events, or drop registrations while a pipe is up (scenarios/c14b_more.cc)
+            S("c14_churn", 800, 24000),    # dialers redialing while their listener is closed and replaced over and over
         ],
         "assumptions": [
             "redial bounds are measured at the simulated kernel's connect() (simnet_set_connect_hook), from the REM_POST "
